@@ -2,6 +2,7 @@ package exectypes
 
 import (
 	"encoding/json"
+	"fmt"
 	"sort"
 
 	"github.com/smartcontractkit/libocr/offchainreporting2plus/ocr3types"
@@ -46,6 +47,16 @@ func (p PluginState) Next() PluginState {
 
 	default:
 		panic("unexpected execute plugin state")
+	}
+}
+
+// IsValid returns true if the state is one of the defined plugin states, i.e. if Next can be called on it.
+func (p PluginState) IsValid() bool {
+	switch p {
+	case Unknown, Initialized, GetCommitReports, GetMessages, Filter:
+		return true
+	default:
+		return false
 	}
 }
 
@@ -120,6 +131,11 @@ func DecodeOutcome(b ocr3types.Outcome) (Outcome, error) {
 		return Outcome{}, nil
 	}
 	o := Outcome{}
-	err := json.Unmarshal(b, &o)
-	return o, err
+	if err := json.Unmarshal(b, &o); err != nil {
+		return o, err
+	}
+	if !o.State.IsValid() {
+		return o, fmt.Errorf("unknown plugin state %q", o.State)
+	}
+	return o, nil
 }
